@@ -76,7 +76,17 @@ func ConvertProtoHeaderToMetadata(
 func AppendToOutgoingContext(ctx context.Context, src []*conformancev1.Header) context.Context {
 	keysVals := make([]string, 0, len(src)*2)
 	for _, hdr := range src {
+		// Values of binary headers are given base64-encoded. The gRPC library
+		// encodes the values of "-bin" keys itself, so they must be decoded
+		// here (as ConvertProtoHeaderToMetadata does) or they end up on the
+		// wire encoded twice.
+		isBinary := strings.HasSuffix(strings.ToLower(hdr.Name), "-bin")
 		for _, val := range hdr.Value {
+			if isBinary {
+				if data, err := connect.DecodeBinaryHeader(val); err == nil {
+					val = string(data)
+				}
+			}
 			keysVals = append(keysVals, hdr.Name, val)
 		}
 	}
